@@ -181,6 +181,12 @@ func strGsub(L *LState) int {
 	L.CheckTypes(3, LTString, LTTable, LTFunction)
 	repl := L.CheckAny(3)
 	limit := L.OptInt(4, -1)
+	if L.Get(4) != LNil && limit <= 0 {
+		// an explicit limit of zero (or less) means no substitution at all
+		L.SetTop(1)
+		L.Push(LNumber(0))
+		return 2
+	}
 
 	mds, err := pm.Find(pat, unsafeFastStringToReadOnlyBytes(str), 0, limit)
 	if err != nil {
